@@ -1,520 +1,225 @@
-(* One simulation theorem for the FPyLang evaluator (Sem.v), by a single
-   induction on the fuel, that gives at once
-     - fuel monotonicity            (rho = id, S = s, P' = P),
-     - the frame property           (rho = id: extra bindings do not matter),
-     - renaming                     (rho injective: callee locals renamed apart),
-     - program extension            (P' defines at least what P defines).
-   Only SUCCESSFUL runs are related (`= ROk r`), which is what the transform
-   theorems need ("on every input on which the original returns"). *)
+(* A generic simulation scheme for statement-level rewrites that change neither
+   the environment nor the store: if the oracles (the judgements at the previous
+   fuel) of program P1 are refined by those of P2 on related syntax, then so are
+   the bodies -- for every judgement, for statements related by CONGRUENCE.
+   A rewrite (e.g. while-unrolling) adds its own rule to the statement relation
+   and proves that rule separately, with extra fuel.  Proofs. *)
 From Coq Require Import ZArith List Bool String Lia.
 From FpyV Require Import Num.RealFloat Num.Float Num.CtxDef Lang.Syntax Lang.Values Lang.Sem Lang.SemMono.
-From FpyV Require Import Lang.Transforms.Rename Lang.Transforms.RenameProofs.
 Import ListNotations.
+Open Scope Z_scope.
 
-(* ---------------------------------------------------------------- environments *)
-Lemma env_get_set_same : forall s x v, env_get (env_set s x v) x = Some v.
+(* b succeeds with the same result whenever a succeeds *)
+Definition ok_le {A} (a b : res A) : Prop := forall x, a = ROk x -> b = ROk x.
+
+Lemma ok_le_refl : forall A (a : res A), ok_le a a.
+Proof. unfold ok_le; auto. Qed.
+
+Lemma ok_le_trans : forall A (a b c : res A), ok_le a b -> ok_le b c -> ok_le a c.
+Proof. unfold ok_le; auto. Qed.
+
+Lemma le_res_ok_le : forall A (a b : res A), le_res a b -> ok_le a b.
+Proof. unfold le_res, ok_le. intros A a b H x E. rewrite H; [exact E|]. rewrite E. discriminate. Qed.
+
+Lemma ok_le_bind : forall A B (c1 c2 : res A) (k1 k2 : A -> res B),
+  ok_le c1 c2 -> (forall a, c1 = ROk a -> ok_le (k1 a) (k2 a)) -> ok_le (rbind c1 k1) (rbind c2 k2).
 Proof.
-  induction s as [|[y w] s IH]; intros; cbn.
-  - rewrite String.eqb_refl. reflexivity.
-  - destruct (String.eqb x y) eqn:E; cbn; rewrite E; auto.
+  unfold ok_le. intros A B c1 c2 k1 k2 Hc Hk x E. destruct c1 as [a| |]; cbn [rbind] in E; try discriminate.
+  rewrite (Hc a eq_refl). cbn [rbind]. apply (Hk a eq_refl). exact E.
 Qed.
 
-Lemma env_get_set_other : forall s x y v, x <> y -> env_get (env_set s x v) y = env_get s y.
-Proof.
-  induction s as [|[z w] s IH]; intros; cbn.
-  - destruct (String.eqb y x) eqn:E; auto. apply String.eqb_eq in E. congruence.
-  - destruct (String.eqb x z) eqn:E; cbn.
-    + apply String.eqb_eq in E. subst z.
-      destruct (String.eqb y x) eqn:E2; auto. apply String.eqb_eq in E2. congruence.
-    + destruct (String.eqb y z); auto.
-Qed.
+(* induction on statements with the induction hypothesis for every statement of the nested blocks *)
+Section StmtInd.
+Variable Q : stmt -> Prop.
+Hypothesis H_assign : forall p e, Q (SAssign p e).
+Hypothesis H_iassign : forall x idx e, Q (SIndexAssign x idx e).
+Hypothesis H_if1 : forall c b, Forall Q b -> Q (SIf1 c b).
+Hypothesis H_if : forall c t f, Forall Q t -> Forall Q f -> Q (SIf c t f).
+Hypothesis H_while : forall c b, Forall Q b -> Q (SWhile c b).
+Hypothesis H_for : forall p it b, Forall Q b -> Q (SFor p it b).
+Hypothesis H_ctx : forall x e b, Forall Q b -> Q (SContext x e b).
+Hypothesis H_assert : forall e, Q (SAssert e).
+Hypothesis H_effect : forall e, Q (SEffect e).
+Hypothesis H_return : forall e, Q (SReturn e).
+Hypothesis H_pass : Q SPass.
 
-Definition inj (rho : ident -> ident) := forall x y, rho x = rho y -> x = y.
-
-(* S knows (under rho) everything s knows *)
-Definition erel (rho : ident -> ident) (s S : env) :=
-  forall x v, env_get s x = Some v -> env_get S (rho x) = Some v.
-
-(* S' differs from S at most on W *)
-Definition keeps (W : list ident) (S S' : env) :=
-  forall z, ~ In z W -> env_get S' z = env_get S z.
-
-Lemma keeps_refl : forall W S, keeps W S S.
-Proof. intros W S z _. reflexivity. Qed.
-
-Lemma keeps_trans : forall W1 W2 S1 S2 S3,
-  keeps W1 S1 S2 -> keeps W2 S2 S3 -> keeps (W1 ++ W2) S1 S3.
-Proof.
-  intros W1 W2 S1 S2 S3 H1 H2 z Hz. rewrite H2, H1; auto.
-  - intro; apply Hz; apply in_or_app; auto.
-  - intro; apply Hz; apply in_or_app; auto.
-Qed.
-
-Lemma keeps_weaken : forall W W' S S', keeps W S S' -> incl W W' -> keeps W' S S'.
-Proof. intros W W' S S' H Hi z Hz. apply H. intro; apply Hz; auto. Qed.
-
-Lemma erel_set : forall rho s S x v, inj rho -> erel rho s S ->
-  erel rho (env_set s x v) (env_set S (rho x) v).
-Proof.
-  intros rho s S x v Hinj HR y w Hy.
-  destruct (String.eqb x y) eqn:E.
-  - apply String.eqb_eq in E. subst y. rewrite env_get_set_same in Hy |- *. assumption.
-  - apply String.eqb_neq in E. rewrite env_get_set_other in Hy by assumption.
-    rewrite env_get_set_other. apply HR; assumption.
-    intro Heq. apply Hinj in Heq. contradiction.
-Qed.
-
-Lemma keeps_set : forall S x v, keeps [x] S (env_set S x v).
-Proof.
-  intros S x v z Hz. apply env_get_set_other. intro; subst; apply Hz; left; reflexivity.
-Qed.
-
-(* ---------------------------------------------------------------- patterns *)
-Fixpoint pat_ind' (Q : pat -> Prop) (HV : forall x, Q (PVar x)) (HW : Q PWild)
-  (HT : forall ps, Forall Q ps -> Q (PTuple ps)) (p : pat) {struct p} : Q p :=
-  match p with
-  | PVar x => HV x
-  | PWild => HW
-  | PTuple ps =>
-      HT ps ((fix go (l : list pat) : Forall Q l :=
-                match l with
-                | [] => Forall_nil Q
-                | q :: r => Forall_cons q (pat_ind' Q HV HW HT q) (go r)
-                end) ps)
+Fixpoint stmt_ind2 (st : stmt) : Q st :=
+  let blk := fix go (b : block) : Forall Q b :=
+    match b with [] => Forall_nil Q | x :: r => Forall_cons x (stmt_ind2 x) (go r) end in
+  match st with
+  | SAssign p e => H_assign p e
+  | SIndexAssign x idx e => H_iassign x idx e
+  | SIf1 c b => H_if1 c b (blk b)
+  | SIf c t f => H_if c t f (blk t) (blk f)
+  | SWhile c b => H_while c b (blk b)
+  | SFor p it b => H_for p it b (blk b)
+  | SContext x e b => H_ctx x e b (blk b)
+  | SAssert e => H_assert e
+  | SEffect e => H_effect e
+  | SReturn e => H_return e
+  | SPass => H_pass
   end.
 
-Definition bind_pats : list pat -> list value -> env -> result env :=
-  fix go (ps : list pat) (vs : list value) (s : env) : result env :=
-    match ps, vs with
-    | p :: ps', v :: vs' => bind (bind_pat p v s) (fun s' => go ps' vs' s')
-    | _, _ => Ok s
-    end.
+Lemma block_ind2 : forall b, Forall Q b.
+Proof. induction b; constructor; auto using stmt_ind2. Qed.
+End StmtInd.
 
-Lemma bind_pat_tuple : forall ps v s,
-  bind_pat (PTuple ps) v s =
-  match v with
-  | VTuple vs => if negb (Nat.eqb (List.length ps) (List.length vs)) then Err ValueErr
-                 else bind_pats ps vs s
-  | _ => Err TypeErr
-  end.
-Proof. reflexivity. Qed.
+(* statements related by congruence, given the relation on blocks *)
+Inductive scong (brel : block -> block -> Prop) : stmt -> stmt -> Prop :=
+  | sc_assign : forall p e, scong brel (SAssign p e) (SAssign p e)
+  | sc_iassign : forall x idx e, scong brel (SIndexAssign x idx e) (SIndexAssign x idx e)
+  | sc_if1 : forall c b b', brel b b' -> scong brel (SIf1 c b) (SIf1 c b')
+  | sc_if : forall c t t' f f', brel t t' -> brel f f' -> scong brel (SIf c t f) (SIf c t' f')
+  | sc_while : forall c b b', brel b b' -> scong brel (SWhile c b) (SWhile c b')
+  | sc_for : forall p it b b', brel b b' -> scong brel (SFor p it b) (SFor p it b')
+  | sc_ctx : forall x e b b', brel b b' -> scong brel (SContext x e b) (SContext x e b')
+  | sc_assert : forall e, scong brel (SAssert e) (SAssert e)
+  | sc_effect : forall e, scong brel (SEffect e) (SEffect e)
+  | sc_return : forall e, scong brel (SReturn e) (SReturn e)
+  | sc_pass : scong brel SPass SPass.
 
-Lemma bind_pat_sim : forall rho, inj rho -> forall p v s s' S,
-  bind_pat p v s = Ok s' -> erel rho s S ->
-  exists S', bind_pat (ren_pat rho p) v S = Ok S' /\ erel rho s' S' /\
-             keeps (map rho (pat_vars p)) S S'.
-Proof.
-  intros rho Hinj p. induction p as [x| |ps IH] using pat_ind'; intros v s s' S Hb HR.
-  - cbn in Hb. inversion Hb; subst. eexists; split; [reflexivity|]. split.
-    + apply erel_set; assumption.
-    + cbn. apply keeps_set.
-  - cbn in Hb. inversion Hb; subst. eexists; split; [reflexivity|]. split; auto. apply keeps_refl.
-  - rewrite bind_pat_tuple in Hb. cbn [ren_pat]. rewrite bind_pat_tuple.
-    destruct v; try discriminate. rewrite map_length.
-    destruct (negb (Nat.eqb (List.length ps) (List.length vs))); try discriminate.
-    clear -IH Hb HR Hinj. cbn [pat_vars].
-    revert vs s S Hb HR. induction IH as [|p ps Hp _ IHps]; intros vs s S Hb HR.
-    + cbn in Hb |- *. inversion Hb; subst. eexists; split; [reflexivity|]. split; auto. apply keeps_refl.
-    + destruct vs as [|v vs].
-      * cbn in Hb |- *. inversion Hb; subst. eexists; split; [reflexivity|]. split; auto. apply keeps_refl.
-      * cbn in Hb. destruct (bind_pat p v s) as [s1|] eqn:E1; cbn in Hb; try discriminate.
-        destruct (Hp _ _ _ _ E1 HR) as (S1 & E1' & HR1 & K1).
-        destruct (IHps _ _ _ Hb HR1) as (S2 & E2' & HR2 & K2).
-        exists S2. split.
-        { cbn. rewrite E1'. cbn. exact E2'. }
-        split; auto. cbn. rewrite map_app. eapply keeps_trans; eauto.
-Qed.
-
-(* ---------------------------------------------------------------- the side fixpoints *)
-Lemma value_eq_up : forall N n mu a b r, value_eq N n mu a b = ROk r ->
-  forall m, (n <= m)%nat -> value_eq N m mu a b = ROk r.
-Proof.
-  intros N n mu a b r H m Hm. rewrite <- H. apply value_eq_mono; [exact Hm|]. rewrite H. discriminate.
-Qed.
-
-Lemma dim_of_up : forall n mu v r, dim_of n mu v = ROk r ->
-  forall m, (n <= m)%nat -> dim_of m mu v = ROk r.
-Proof.
-  intros n mu v r H m Hm. rewrite <- H. apply dim_of_mono; [exact Hm|]. rewrite H. discriminate.
-Qed.
-
-(* ---------------------------------------------------------------- the simulation *)
-Section Sim.
+Section BodiesSim.
 Variable N : numops.
-Variables P P' : program.
-Hypothesis Hext : forall g fn, lookup_fn P g = Some fn -> lookup_fn P' g = Some fn.
+Variables P1 P2 : program.
+Variable srel : stmt -> stmt -> Prop.
+Variable brel : block -> block -> Prop.
+Variable frel : func -> func -> Prop.
 
-Definition orel (rho : ident -> ident) (W : list ident) (T : env) (o o' : outcome) : Prop :=
-  match o, o' with
-  | ONormal s', ONormal T' => erel rho s' T' /\ keeps W T T'
-  | OReturn v, OReturn v' => v = v'
+Hypothesis brel_nil_inv : forall b', brel [] b' -> b' = [].
+Hypothesis brel_cons_inv : forall st r b', brel (st :: r) b' ->
+  exists st' r', b' = st' :: r' /\ srel st st' /\ brel r r'.
+Hypothesis srel_cong : forall st st', scong brel st st' -> srel st st'.
+Hypothesis frel_inv : forall fn fn', frel fn fn' ->
+  f_params fn' = f_params fn /\ f_ctx fn' = f_ctx fn /\ brel (f_body fn) (f_body fn').
+Hypothesis Hlookup : forall f,
+  match lookup_fn P1 f, lookup_fn P2 f with
+  | Some a, Some b => frel a b
+  | None, None => True
   | _, _ => False
   end.
 
-Record SimAt (n : nat) : Prop := {
-  h_eval : forall rho, inj rho -> forall m s T mu C e r, (n <= m)%nat -> erel rho s T ->
-    eval N P n s mu C e = ROk r -> eval N P' m T mu C (ren_expr rho e) = ROk r;
-  h_evals : forall rho, inj rho -> forall m s T mu C es r, (n <= m)%nat -> erel rho s T ->
-    evals N P n s mu C es = ROk r -> evals N P' m T mu C (map (ren_expr rho) es) = ROk r;
-  h_eval_opt : forall rho, inj rho -> forall m s T mu C e r, (n <= m)%nat -> erel rho s T ->
-    eval_opt N P n s mu C e = ROk r -> eval_opt N P' m T mu C (option_map (ren_expr rho) e) = ROk r;
-  h_cmp_chain : forall rho, inj rho -> forall m s T mu C v ops args r, (n <= m)%nat -> erel rho s T ->
-    cmp_chain N P n s mu C v ops args = ROk r ->
-    cmp_chain N P' m T mu C v ops (map (ren_expr rho) args) = ROk r;
-  h_bool_chain : forall rho, inj rho -> forall m s T mu C u args r, (n <= m)%nat -> erel rho s T ->
-    bool_chain N P n s mu C u args = ROk r ->
-    bool_chain N P' m T mu C u (map (ren_expr rho) args) = ROk r;
-  h_comp : forall rho, inj rho -> forall m s T mu C gens elt r, (n <= m)%nat -> erel rho s T ->
-    comp N P n s mu C gens elt = ROk r ->
-    comp N P' m T mu C (ren_gens rho gens) (ren_expr rho elt) = ROk r;
-  h_comp_loop : forall rho, inj rho -> forall m s T mu C p l i gs elt r, (n <= m)%nat -> erel rho s T ->
-    comp_loop N P n s mu C p l i gs elt = ROk r ->
-    comp_loop N P' m T mu C (ren_pat rho p) l i (ren_gens rho gs) (ren_expr rho elt) = ROk r;
-  h_call : forall m fn vs mu C r, (n <= m)%nat ->
-    call N P n fn vs mu C = ROk r -> call N P' m fn vs mu C = ROk r;
-  h_exec : forall rho, inj rho -> forall m s T mu C st o mu', (n <= m)%nat -> erel rho s T ->
-    wt_ok rho st = true ->
-    exec N P n s mu C st = ROk (o, mu') ->
-    exists o', exec N P' m T mu C (ren_stmt rho st) = ROk (o', mu') /\
-               orel rho (map rho (stmt_targets st)) T o o';
-  h_exec_block : forall rho, inj rho -> forall m s T mu C b o mu', (n <= m)%nat -> erel rho s T ->
-    wt_ok_block rho b = true ->
-    exec_block N P n s mu C b = ROk (o, mu') ->
-    exists o', exec_block N P' m T mu C (ren_block rho b) = ROk (o', mu') /\
-               orel rho (map rho (block_targets b)) T o o';
-  h_for_loop : forall rho, inj rho -> forall m s T mu C p l i body o mu', (n <= m)%nat -> erel rho s T ->
-    wt_ok_block rho body = true ->
-    for_loop N P n s mu C p l i body = ROk (o, mu') ->
-    exists o', for_loop N P' m T mu C (ren_pat rho p) l i (ren_block rho body) = ROk (o', mu') /\
-               orel rho (map rho (pat_vars p ++ block_targets body)) T o o';
-  h_index_walk : forall rho, inj rho -> forall m s T mu C cur idx v mu', (n <= m)%nat -> erel rho s T ->
-    index_walk N P n s mu C cur idx v = ROk mu' ->
-    index_walk N P' m T mu C cur (map (ren_expr rho) idx) v = ROk mu'
-}.
+Variables ev1 ev2 : env -> store -> ctx -> expr -> res (value * store).
+Variables evs1 evs2 : env -> store -> ctx -> (list expr) -> res (list value * store).
+Variables evo1 evo2 : env -> store -> ctx -> (option expr) -> res (option value * store).
+Variables cmpc1 cmpc2 : env -> store -> ctx -> value -> (list cmpop) -> (list expr) -> res (value * store).
+Variables boolc1 boolc2 : env -> store -> ctx -> bool -> (list expr) -> res (value * store).
+Variables cmpr1 cmpr2 : env -> store -> ctx -> (list (pat * expr)) -> expr -> res (list value * store).
+Variables cmpl1 cmpl2 : env -> store -> ctx -> pat -> loc -> nat -> (list (pat * expr)) -> expr -> res (list value * store).
+Variables cal1 cal2 : func -> (list value) -> store -> ctx -> res (value * store).
+Variables ex1 ex2 : env -> store -> ctx -> stmt -> res (outcome * store).
+Variables exb1 exb2 : env -> store -> ctx -> block -> res (outcome * store).
+Variables forl1 forl2 : env -> store -> ctx -> pat -> loc -> nat -> block -> res (outcome * store).
+Variables idxw1 idxw2 : env -> store -> ctx -> value -> (list expr) -> value -> res store.
+Variables veq1 veq2 : store -> value -> value -> res bool.
+Variables dimf1 dimf2 : store -> value -> res Z.
+Hypothesis Hev : forall a0 a1 a2 a3, ok_le (ev1 a0 a1 a2 a3) (ev2 a0 a1 a2 a3).
+Hypothesis Hevs : forall a0 a1 a2 a3, ok_le (evs1 a0 a1 a2 a3) (evs2 a0 a1 a2 a3).
+Hypothesis Hevo : forall a0 a1 a2 a3, ok_le (evo1 a0 a1 a2 a3) (evo2 a0 a1 a2 a3).
+Hypothesis Hcmpc : forall a0 a1 a2 a3 a4 a5, ok_le (cmpc1 a0 a1 a2 a3 a4 a5) (cmpc2 a0 a1 a2 a3 a4 a5).
+Hypothesis Hboolc : forall a0 a1 a2 a3 a4, ok_le (boolc1 a0 a1 a2 a3 a4) (boolc2 a0 a1 a2 a3 a4).
+Hypothesis Hcmpr : forall a0 a1 a2 a3 a4, ok_le (cmpr1 a0 a1 a2 a3 a4) (cmpr2 a0 a1 a2 a3 a4).
+Hypothesis Hcmpl : forall a0 a1 a2 a3 a4 a5 a6 a7, ok_le (cmpl1 a0 a1 a2 a3 a4 a5 a6 a7) (cmpl2 a0 a1 a2 a3 a4 a5 a6 a7).
+Hypothesis Hcal : forall fn fn' a1 a2 a3, frel fn fn' -> ok_le (cal1 fn a1 a2 a3) (cal2 fn' a1 a2 a3).
+Hypothesis Hex : forall a0 a1 a2 st st', srel st st' -> ok_le (ex1 a0 a1 a2 st) (ex2 a0 a1 a2 st').
+Hypothesis Hexb : forall a0 a1 a2 b b', brel b b' -> ok_le (exb1 a0 a1 a2 b) (exb2 a0 a1 a2 b').
+Hypothesis Hforl : forall a0 a1 a2 a3 a4 a5 b b', brel b b' -> ok_le (forl1 a0 a1 a2 a3 a4 a5 b) (forl2 a0 a1 a2 a3 a4 a5 b').
+Hypothesis Hidxw : forall a0 a1 a2 a3 a4 a5, ok_le (idxw1 a0 a1 a2 a3 a4 a5) (idxw2 a0 a1 a2 a3 a4 a5).
+Hypothesis Hveq : forall a0 a1 a2, ok_le (veq1 a0 a1 a2) (veq2 a0 a1 a2).
+Hypothesis Hdimf : forall a0 a1, ok_le (dimf1 a0 a1) (dimf2 a0 a1).
 
-Lemma sim_O : SimAt 0.
-Proof. constructor; intros; try discriminate. Qed.
+Ltac sim :=
+  repeat first
+    [ apply ok_le_refl
+    | apply Hev
+    | apply Hevs
+    | apply Hevo
+    | apply Hcmpc
+    | apply Hboolc
+    | apply Hcmpr
+    | apply Hcmpl
+    | (apply Hcal; assumption)
+    | (apply Hex; assumption)
+    | (apply Hexb; assumption)
+    | (apply Hforl; assumption)
+    | apply Hidxw
+    | apply Hveq
+    | apply Hdimf
+    | apply ok_le_bind; [ | intros ? _ ]
+    | match goal with
+      | |- ok_le (match lookup_fn P1 ?f with _ => _ end) _ =>
+          let H := fresh "Hl" in
+          pose proof (Hlookup f) as H; destruct (lookup_fn P1 f), (lookup_fn P2 f); try contradiction
+      | |- ok_le (match ?x with _ => _ end) _ => destruct x
+      end ].
 
-Ltac bstep :=
-  match goal with
-  | H : rbind ?x _ = ROk _ |- _ =>
-      let E := fresh "E" in
-      destruct x eqn:E; [|discriminate H|discriminate H]; cbn [rbind] in H;
-      repeat match goal with p : (_ * _)%type |- _ => destruct p end
-  end.
+Lemma eval_body_sim : forall (s : env) (mu : store) (C : ctx) (e : expr),
+  ok_le (eval_body N P1 ev1 evs1 evo1 cmpc1 boolc1 cmpr1 cmpl1 cal1 ex1 exb1 forl1 idxw1 veq1 dimf1 s mu C e)
+        (eval_body N P2 ev2 evs2 evo2 cmpc2 boolc2 cmpr2 cmpl2 cal2 ex2 exb2 forl2 idxw2 veq2 dimf2 s mu C e).
+Proof. intros. unfold eval_body. sim. Qed.
 
-(* use an induction hypothesis (a field of SimAt n) on E, rewrite the goal with it *)
-Ltac ih IH rho Hinj HR :=
-  match goal with
-  | E : eval N P _ _ _ _ _ = ROk _ |- _ =>
-      eapply (h_eval _ IH rho Hinj) in E; [rewrite E; clear E; cbn [rbind] | lia | exact HR]
-  | E : evals N P _ _ _ _ _ = ROk _ |- _ =>
-      eapply (h_evals _ IH rho Hinj) in E; [rewrite E; clear E; cbn [rbind] | lia | exact HR]
-  | E : eval_opt N P _ _ _ _ _ = ROk _ |- _ =>
-      eapply (h_eval_opt _ IH rho Hinj) in E; [rewrite E; clear E; cbn [rbind] | lia | exact HR]
-  | E : comp N P _ _ _ _ _ _ = ROk _ |- _ =>
-      eapply (h_comp _ IH rho Hinj) in E; [rewrite E; clear E; cbn [rbind] | lia | exact HR]
-  end.
+Lemma evals_body_sim : forall (s : env) (mu : store) (C : ctx) (es : list expr),
+  ok_le (evals_body ev1 evs1 evo1 cmpc1 boolc1 cmpr1 cmpl1 cal1 ex1 exb1 forl1 idxw1 veq1 dimf1 s mu C es)
+        (evals_body ev2 evs2 evo2 cmpc2 boolc2 cmpr2 cmpl2 cal2 ex2 exb2 forl2 idxw2 veq2 dimf2 s mu C es).
+Proof. intros. unfold evals_body. sim. Qed.
 
-Ltac steps IH rho Hinj HR := repeat (bstep; try ih IH rho Hinj HR; cbn [rbind] in * ).
+Lemma eval_opt_body_sim : forall (s : env) (mu : store) (C : ctx) (e : option expr),
+  ok_le (eval_opt_body ev1 evs1 evo1 cmpc1 boolc1 cmpr1 cmpl1 cal1 ex1 exb1 forl1 idxw1 veq1 dimf1 s mu C e)
+        (eval_opt_body ev2 evs2 evo2 cmpc2 boolc2 cmpr2 cmpl2 cal2 ex2 exb2 forl2 idxw2 veq2 dimf2 s mu C e).
+Proof. intros. unfold eval_opt_body. sim. Qed.
 
-Lemma eval_step : forall n, SimAt n ->
-  forall rho, inj rho -> forall m s T mu C e r, (S n <= m)%nat -> erel rho s T ->
-    eval N P (S n) s mu C e = ROk r -> eval N P' m T mu C (ren_expr rho e) = ROk r.
+Lemma cmp_chain_body_sim : forall (s : env) (mu : store) (C : ctx) (v : value) (ops : list cmpop) (args : list expr),
+  ok_le (cmp_chain_body N ev1 evs1 evo1 cmpc1 boolc1 cmpr1 cmpl1 cal1 ex1 exb1 forl1 idxw1 veq1 dimf1 s mu C v ops args)
+        (cmp_chain_body N ev2 evs2 evo2 cmpc2 boolc2 cmpr2 cmpl2 cal2 ex2 exb2 forl2 idxw2 veq2 dimf2 s mu C v ops args).
+Proof. intros. unfold cmp_chain_body. sim. Qed.
+
+Lemma bool_chain_body_sim : forall (s : env) (mu : store) (C : ctx) (unit : bool) (args : list expr),
+  ok_le (bool_chain_body ev1 evs1 evo1 cmpc1 boolc1 cmpr1 cmpl1 cal1 ex1 exb1 forl1 idxw1 veq1 dimf1 s mu C unit args)
+        (bool_chain_body ev2 evs2 evo2 cmpc2 boolc2 cmpr2 cmpl2 cal2 ex2 exb2 forl2 idxw2 veq2 dimf2 s mu C unit args).
+Proof. intros. unfold bool_chain_body. sim. Qed.
+
+Lemma comp_body_sim : forall (s : env) (mu : store) (C : ctx) (gens : list (pat * expr)) (elt : expr),
+  ok_le (comp_body ev1 evs1 evo1 cmpc1 boolc1 cmpr1 cmpl1 cal1 ex1 exb1 forl1 idxw1 veq1 dimf1 s mu C gens elt)
+        (comp_body ev2 evs2 evo2 cmpc2 boolc2 cmpr2 cmpl2 cal2 ex2 exb2 forl2 idxw2 veq2 dimf2 s mu C gens elt).
+Proof. intros. unfold comp_body. sim. Qed.
+
+Lemma comp_loop_body_sim : forall (s : env) (mu : store) (C : ctx) (p : pat) (l : loc) (i : nat) (gs : list (pat * expr)) (elt : expr),
+  ok_le (comp_loop_body ev1 evs1 evo1 cmpc1 boolc1 cmpr1 cmpl1 cal1 ex1 exb1 forl1 idxw1 veq1 dimf1 s mu C p l i gs elt)
+        (comp_loop_body ev2 evs2 evo2 cmpc2 boolc2 cmpr2 cmpl2 cal2 ex2 exb2 forl2 idxw2 veq2 dimf2 s mu C p l i gs elt).
+Proof. intros. unfold comp_loop_body. sim. Qed.
+
+Lemma index_walk_body_sim : forall (s : env) (mu : store) (C : ctx) (cur : value) (idx : list expr) (v : value),
+  ok_le (index_walk_body ev1 evs1 evo1 cmpc1 boolc1 cmpr1 cmpl1 cal1 ex1 exb1 forl1 idxw1 veq1 dimf1 s mu C cur idx v)
+        (index_walk_body ev2 evs2 evo2 cmpc2 boolc2 cmpr2 cmpl2 cal2 ex2 exb2 forl2 idxw2 veq2 dimf2 s mu C cur idx v).
+Proof. intros. unfold index_walk_body. sim. Qed.
+
+Lemma call_body_sim : forall (fn fn' : func) (vs : list value) (mu : store) (C : ctx), frel fn fn' ->
+  ok_le (call_body ev1 evs1 evo1 cmpc1 boolc1 cmpr1 cmpl1 cal1 ex1 exb1 forl1 idxw1 veq1 dimf1 fn vs mu C)
+        (call_body ev2 evs2 evo2 cmpc2 boolc2 cmpr2 cmpl2 cal2 ex2 exb2 forl2 idxw2 veq2 dimf2 fn' vs mu C).
 Proof.
-  intros n IH rho Hinj m s T mu C e r Hm HR H.
-  destruct m as [|m]; [lia|].
-  destruct e; simpl in H |- *.
-  all: try (steps IH rho Hinj HR; first [exact H | idtac]).
-  - (* EVar *) destruct (env_get s x) as [v|] eqn:E; [|discriminate].
-    rewrite (HR _ _ E). exact H.
-  - (* ECompare *) destruct args as [|a rest]; [discriminate|]. cbn [map].
-    steps IH rho Hinj HR. eapply (h_cmp_chain _ IH rho Hinj); eauto; lia.
-  - eapply (h_bool_chain _ IH rho Hinj); eauto; lia.
-  - eapply (h_bool_chain _ IH rho Hinj); eauto; lia.
-  - (* EIf *) destruct a; eapply (h_eval _ IH rho Hinj); eauto; lia.
-  - (* EDim *) match goal with E : dim_of n _ _ = ROk _ |- _ => rewrite (dim_of_up _ _ _ _ E m) by lia end.
-    cbn [rbind]. match goal with E : lift _ = ROk _ |- _ => rewrite E end. exact H.
-  - (* ECall *) destruct (lookup_fn P f) as [fn|] eqn:El; [|discriminate].
-    rewrite (Hext _ _ El). steps IH rho Hinj HR.
-    eapply (h_call _ IH); eauto; lia.
+  intros fn fn' vs mu C Hf. destruct (frel_inv _ _ Hf) as (Hp & Hc & Hb).
+  unfold call_body. rewrite Hp, Hc. sim.
 Qed.
 
-Lemma evals_step : forall n, SimAt n ->
-  forall rho, inj rho -> forall m s T mu C es r, (S n <= m)%nat -> erel rho s T ->
-    evals N P (S n) s mu C es = ROk r -> evals N P' m T mu C (map (ren_expr rho) es) = ROk r.
+Lemma exec_body_sim : forall (s : env) (mu : store) (C : ctx) (st st' : stmt), scong brel st st' ->
+  ok_le (exec_body ev1 evs1 evo1 cmpc1 boolc1 cmpr1 cmpl1 cal1 ex1 exb1 forl1 idxw1 veq1 dimf1 s mu C st)
+        (exec_body ev2 evs2 evo2 cmpc2 boolc2 cmpr2 cmpl2 cal2 ex2 exb2 forl2 idxw2 veq2 dimf2 s mu C st').
 Proof.
-  intros n IH rho Hinj m s T mu C es r Hm HR H.
-  destruct m as [|m]; [lia|].
-  destruct es; simpl in H |- *; [exact H|].
-  steps IH rho Hinj HR. exact H.
+  intros s mu C st st' H. inversion H; subst; unfold exec_body; sim.
+  apply Hex, srel_cong. exact H.
 Qed.
 
-Lemma eval_opt_step : forall n, SimAt n ->
-  forall rho, inj rho -> forall m s T mu C e r, (S n <= m)%nat -> erel rho s T ->
-    eval_opt N P (S n) s mu C e = ROk r -> eval_opt N P' m T mu C (option_map (ren_expr rho) e) = ROk r.
+Lemma exec_block_body_sim : forall (s : env) (mu : store) (C : ctx) (b b' : block), brel b b' ->
+  ok_le (exec_block_body ev1 evs1 evo1 cmpc1 boolc1 cmpr1 cmpl1 cal1 ex1 exb1 forl1 idxw1 veq1 dimf1 s mu C b)
+        (exec_block_body ev2 evs2 evo2 cmpc2 boolc2 cmpr2 cmpl2 cal2 ex2 exb2 forl2 idxw2 veq2 dimf2 s mu C b').
 Proof.
-  intros n IH rho Hinj m s T mu C e r Hm HR H.
-  destruct m as [|m]; [lia|].
-  destruct e; simpl in H |- *; [|exact H].
-  steps IH rho Hinj HR. exact H.
+  intros s mu C b b' H. destruct b as [|st r].
+  - rewrite (brel_nil_inv _ H). apply ok_le_refl.
+  - destruct (brel_cons_inv _ _ _ H) as (st' & r' & -> & Hs & Hr). unfold exec_block_body. sim.
 Qed.
 
-Lemma cmp_chain_step : forall n, SimAt n ->
-  forall rho, inj rho -> forall m s T mu C v ops args r, (S n <= m)%nat -> erel rho s T ->
-    cmp_chain N P (S n) s mu C v ops args = ROk r ->
-    cmp_chain N P' m T mu C v ops (map (ren_expr rho) args) = ROk r.
-Proof.
-  intros n IH rho Hinj m s T mu C v ops args r Hm HR H.
-  destruct m as [|m]; [lia|].
-  destruct ops as [|o ops], args as [|e args]; simpl in H |- *; try exact H.
-  destruct (is_ordering o).
-  - steps IH rho Hinj HR.
-    match goal with |- context [cmp_test N o ?a ?b] => destruct (cmp_test N o a b); [|exact H] end.
-    destruct ops; [exact H|]. eapply (h_cmp_chain _ IH rho Hinj); eauto; lia.
-  - steps IH rho Hinj HR.
-    match goal with E : value_eq N n _ _ _ = ROk _ |- _ => rewrite (value_eq_up _ _ _ _ _ _ E m) by lia end. cbn [rbind].
-    match goal with |- context [if ?c then _ else _] => destruct c; [|exact H] end.
-    destruct ops; [exact H|]. eapply (h_cmp_chain _ IH rho Hinj); eauto; lia.
-Qed.
+Lemma for_loop_body_sim : forall (s : env) (mu : store) (C : ctx) (p : pat) (l : loc) (i : nat) (b b' : block), brel b b' ->
+  ok_le (for_loop_body ev1 evs1 evo1 cmpc1 boolc1 cmpr1 cmpl1 cal1 ex1 exb1 forl1 idxw1 veq1 dimf1 s mu C p l i b)
+        (for_loop_body ev2 evs2 evo2 cmpc2 boolc2 cmpr2 cmpl2 cal2 ex2 exb2 forl2 idxw2 veq2 dimf2 s mu C p l i b').
+Proof. intros. unfold for_loop_body. sim. Qed.
 
-Lemma bool_chain_step : forall n, SimAt n ->
-  forall rho, inj rho -> forall m s T mu C u args r, (S n <= m)%nat -> erel rho s T ->
-    bool_chain N P (S n) s mu C u args = ROk r ->
-    bool_chain N P' m T mu C u (map (ren_expr rho) args) = ROk r.
-Proof.
-  intros n IH rho Hinj m s T mu C u args r Hm HR H.
-  destruct m as [|m]; [lia|].
-  destruct args as [|e args]; simpl in H |- *; [exact H|].
-  steps IH rho Hinj HR.
-  match goal with |- context [Bool.eqb ?a u] => destruct (Bool.eqb a u); [|exact H] end.
-  destruct args; [exact H|]. eapply (h_bool_chain _ IH rho Hinj); eauto; lia.
-Qed.
-
-Lemma comp_step : forall n, SimAt n ->
-  forall rho, inj rho -> forall m s T mu C gens elt r, (S n <= m)%nat -> erel rho s T ->
-    comp N P (S n) s mu C gens elt = ROk r ->
-    comp N P' m T mu C (ren_gens rho gens) (ren_expr rho elt) = ROk r.
-Proof.
-  intros n IH rho Hinj m s T mu C gens elt r Hm HR H.
-  destruct m as [|m]; [lia|].
-  destruct gens as [|[p it] gs]; simpl in H |- *.
-  - steps IH rho Hinj HR. exact H.
-  - steps IH rho Hinj HR. eapply (h_comp_loop _ IH rho Hinj); eauto; lia.
-Qed.
-
-Lemma comp_loop_step : forall n, SimAt n ->
-  forall rho, inj rho -> forall m s T mu C p l i gs elt r, (S n <= m)%nat -> erel rho s T ->
-    comp_loop N P (S n) s mu C p l i gs elt = ROk r ->
-    comp_loop N P' m T mu C (ren_pat rho p) l i (ren_gens rho gs) (ren_expr rho elt) = ROk r.
-Proof.
-  intros n IH rho Hinj m s T mu C p l i gs elt r Hm HR H.
-  destruct m as [|m]; [lia|].
-  simpl in H |- *. unfold comp_loop_body in H |- *.
-  destruct (store_get mu l) as [vs|]; [|discriminate].
-  destruct (nth_error vs i) as [x|]; [|exact H].
-  destruct (bind_pat p x s) as [s1|] eqn:Eb; [|discriminate].
-  destruct (bind_pat_sim rho Hinj _ _ _ _ _ Eb HR) as (T1 & Eb' & HR1 & _).
-  rewrite Eb'. cbn [lift rbind] in H |- *.
-  steps IH rho Hinj HR1.
-  match goal with E : comp_loop N P n _ _ _ _ _ _ _ _ = ROk _ |- _ =>
-    eapply (h_comp_loop _ IH rho Hinj) in E; [rewrite E|lia|exact HR1] end. exact H.
-Qed.
-
-Lemma erel_id_refl : forall s, erel idr s s.
-Proof. intros s x v H. exact H. Qed.
-
-Lemma call_step : forall n, SimAt n ->
-  forall m fn vs mu C r, (S n <= m)%nat ->
-    call N P (S n) fn vs mu C = ROk r -> call N P' m fn vs mu C = ROk r.
-Proof.
-  intros n IH m fn vs mu C r Hm H.
-  destruct m as [|m]; [lia|].
-  simpl in H |- *. unfold call_body in H |- *.
-  bstep. cbn zeta in H |- *. bstep.
-  destruct (h_exec_block _ IH idr inj_idr m _ _ _ _ _ _ _ ltac:(lia) (erel_id_refl _) (wt_ok_block_id _) E0)
-    as (o' & Ex & Ho).
-  rewrite ren_block_id in Ex. cbn [rbind]. rewrite Ex. cbn [rbind].
-  destruct o as [s1|v0], o' as [s1'|v']; cbn in Ho; try contradiction; try discriminate.
-  subst v'. exact H.
-Qed.
-
-Lemma keeps_trans_same : forall W S1 S2 S3, keeps W S1 S2 -> keeps W S2 S3 -> keeps W S1 S3.
-Proof. intros W S1 S2 S3 H1 H2 z Hz. rewrite H2, H1; auto. Qed.
-
-Lemma orel_weaken : forall rho W W' T o o', orel rho W T o o' -> incl W W' -> orel rho W' T o o'.
-Proof.
-  intros rho W W' T o o' H Hi. destruct o, o'; cbn in *; auto.
-  destruct H; split; auto. eapply keeps_weaken; eauto.
-Qed.
-
-Lemma exec_step : forall n, SimAt n ->
-  forall rho, inj rho -> forall m s T mu C st o mu', (S n <= m)%nat -> erel rho s T ->
-    wt_ok rho st = true ->
-    exec N P (S n) s mu C st = ROk (o, mu') ->
-    exists o', exec N P' m T mu C (ren_stmt rho st) = ROk (o', mu') /\
-               orel rho (map rho (stmt_targets st)) T o o'.
-Proof.
-  intros n IH rho Hinj m s T mu C st o mu' Hm HR Hwt H.
-  destruct m as [|m]; [lia|].
-  destruct st; simpl in H |- *.
-  - (* SAssign *)
-    bstep. ih IH rho Hinj HR.
-    destruct (bind_pat p v s) as [s1|] eqn:Eb; [|discriminate].
-    destruct (bind_pat_sim rho Hinj _ _ _ _ _ Eb HR) as (T1 & Eb' & HR1 & K1).
-    rewrite Eb'. cbn [lift rbind] in H |- *. inversion H; subst.
-    eexists; split; [reflexivity|]. cbn. split; assumption.
-  - (* SIndexAssign *)
-    steps IH rho Hinj HR.
-    destruct (env_get s x) as [cur|] eqn:Ex; [|discriminate].
-    rewrite (HR _ _ Ex). bstep.
-    match goal with E : index_walk N P n _ _ _ _ _ _ = ROk _ |- _ =>
-      eapply (h_index_walk _ IH rho Hinj) in E; [rewrite E|lia|exact HR] end. cbn [rbind].
-    inversion H; subst. eexists; split; [reflexivity|]. cbn. split; [assumption|apply keeps_refl].
-  - (* SIf1 *)
-    steps IH rho Hinj HR. destruct a.
-    + eapply (h_exec_block _ IH rho Hinj); eauto; lia.
-    + inversion H; subst. eexists; split; [reflexivity|]. cbn. split; [assumption|apply keeps_refl].
-  - (* SIf *)
-    cbn in Hwt. apply andb_prop in Hwt. destruct Hwt as [Hw1 Hw2].
-    steps IH rho Hinj HR. destruct a.
-    + destruct (h_exec_block _ IH rho Hinj m _ _ _ _ _ _ _ ltac:(lia) HR Hw1 H) as (o' & Ex & Ho).
-      exists o'. split; [exact Ex|]. eapply orel_weaken; eauto. rewrite map_app. apply incl_appl, incl_refl.
-    + destruct (h_exec_block _ IH rho Hinj m _ _ _ _ _ _ _ ltac:(lia) HR Hw2 H) as (o' & Ex & Ho).
-      exists o'. split; [exact Ex|]. eapply orel_weaken; eauto. rewrite map_app. apply incl_appr, incl_refl.
-  - (* SWhile *)
-    steps IH rho Hinj HR. destruct a.
-    + bstep.
-      match goal with E : exec_block N P n _ _ _ _ = ROk _ |- _ =>
-        destruct (h_exec_block _ IH rho Hinj m _ _ _ _ _ _ _ ltac:(lia) HR Hwt E) as (o1 & Ex & Ho) end.
-      rewrite Ex. cbn [rbind].
-      destruct o0 as [s1'|v0], o1 as [T1|v']; cbn in Ho; try contradiction.
-      * destruct Ho as [HR1 K1].
-        destruct (h_exec _ IH rho Hinj m _ _ _ _ (SWhile c body) _ _ ltac:(lia) HR1 Hwt H) as (o2 & Ex2 & Ho2).
-        exists o2. split; [exact Ex2|].
-        destruct o as [s2|v2], o2 as [T2|v2']; cbn in Ho2 |- *; try contradiction; auto.
-        destruct Ho2 as [HR2 K2]. split; auto. eapply keeps_trans_same; eauto.
-      * subst v'. inversion H; subst. eexists; split; [reflexivity|]. reflexivity.
-    + inversion H; subst. eexists; split; [reflexivity|]. cbn. split; [assumption|apply keeps_refl].
-  - (* SFor *)
-    steps IH rho Hinj HR.
-    eapply (h_for_loop _ IH rho Hinj); eauto; lia.
-  - (* SContext *)
-    cbn in Hwt. apply andb_prop in Hwt. destruct Hwt as [Hx Hwb].
-    bstep. match goal with E : eval N P n _ _ _ _ = ROk _ |- _ =>
-      eapply (h_eval _ IH rho Hinj) in E; [rewrite E|lia|exact HR] end. cbn [rbind].
-    destruct v; try discriminate.
-    assert (HR1 : erel rho (match x with Some x0 => env_set s x0 (VCtx c) | None => s end)
-                           (match x with Some x0 => env_set T x0 (VCtx c) | None => T end)).
-    { destruct x as [x|]; [|exact HR]. apply String.eqb_eq in Hx.
-      pose proof (erel_set rho s T x (VCtx c) Hinj HR) as K. rewrite Hx in K. exact K. }
-    destruct (h_exec_block _ IH rho Hinj m _ _ _ _ _ _ _ ltac:(lia) HR1 Hwb H) as (o' & Ex & Ho).
-    exists o'. split; [exact Ex|].
-    destruct o as [s2|v2], o' as [T2|v2']; cbn in Ho |- *; try contradiction; auto.
-    destruct Ho as [HR2 K2]. split; auto.
-    destruct x as [x|]; cbn [app map].
-    + apply String.eqb_eq in Hx. rewrite Hx.
-      change (x :: map rho (flat_map stmt_targets body)) with ([x] ++ map rho (flat_map stmt_targets body)).
-      eapply keeps_trans; [apply keeps_set|exact K2].
-    + exact K2.
-  - (* SAssert *)
-    steps IH rho Hinj HR. destruct a; [|discriminate].
-    inversion H; subst. eexists; split; [reflexivity|]. cbn. split; [assumption|apply keeps_refl].
-  - (* SEffect *)
-    steps IH rho Hinj HR.
-    inversion H; subst. eexists; split; [reflexivity|]. cbn. split; [assumption|apply keeps_refl].
-  - (* SReturn *)
-    steps IH rho Hinj HR.
-    inversion H; subst. eexists; split; [reflexivity|]. reflexivity.
-  - (* SPass *)
-    inversion H; subst. eexists; split; [reflexivity|]. cbn. split; [assumption|apply keeps_refl].
-Qed.
-
-Lemma exec_block_step : forall n, SimAt n ->
-  forall rho, inj rho -> forall m s T mu C b o mu', (S n <= m)%nat -> erel rho s T ->
-    wt_ok_block rho b = true ->
-    exec_block N P (S n) s mu C b = ROk (o, mu') ->
-    exists o', exec_block N P' m T mu C (ren_block rho b) = ROk (o', mu') /\
-               orel rho (map rho (block_targets b)) T o o'.
-Proof.
-  intros n IH rho Hinj m s T mu C b o mu' Hm HR Hwt H.
-  destruct m as [|m]; [lia|].
-  destruct b as [|st b]; simpl in H |- *.
-  - inversion H; subst. eexists; split; [reflexivity|]. cbn. split; [assumption|apply keeps_refl].
-  - cbn in Hwt. apply andb_prop in Hwt. destruct Hwt as [Hw1 Hw2].
-    bstep.
-    match goal with E : exec N P n _ _ _ _ = ROk _ |- _ =>
-      destruct (h_exec _ IH rho Hinj m _ _ _ _ _ _ _ ltac:(lia) HR Hw1 E) as (o1 & Ex & Ho) end.
-    rewrite Ex. cbn [rbind].
-    destruct o0 as [s1|v], o1 as [T1|v']; cbn in Ho; try contradiction.
-    + destruct Ho as [HR1 K1].
-      destruct (h_exec_block _ IH rho Hinj m _ _ _ _ _ _ _ ltac:(lia) HR1 Hw2 H) as (o2 & Ex2 & Ho2).
-      exists o2. split; [exact Ex2|].
-      destruct o as [s2|v2], o2 as [T2|v2']; cbn in Ho2 |- *; try contradiction; auto.
-      destruct Ho2 as [HR2 K2]. split; auto. unfold block_targets. cbn [flat_map]. rewrite map_app.
-      eapply keeps_trans; eauto.
-    + subst v'. inversion H; subst. eexists; split; [reflexivity|]. reflexivity.
-Qed.
-
-Lemma for_loop_step : forall n, SimAt n ->
-  forall rho, inj rho -> forall m s T mu C p l i body o mu', (S n <= m)%nat -> erel rho s T ->
-    wt_ok_block rho body = true ->
-    for_loop N P (S n) s mu C p l i body = ROk (o, mu') ->
-    exists o', for_loop N P' m T mu C (ren_pat rho p) l i (ren_block rho body) = ROk (o', mu') /\
-               orel rho (map rho (pat_vars p ++ block_targets body)) T o o'.
-Proof.
-  intros n IH rho Hinj m s T mu C p l i body o mu' Hm HR Hwt H.
-  destruct m as [|m]; [lia|].
-  simpl in H |- *. unfold for_loop_body in H |- *.
-  destruct (store_get mu l) as [vs|]; [|discriminate].
-  destruct (nth_error vs i) as [x|].
-  2:{ inversion H; subst. eexists; split; [reflexivity|]. cbn. split; [assumption|apply keeps_refl]. }
-  destruct (bind_pat p x s) as [s1|] eqn:Eb; [|discriminate].
-  destruct (bind_pat_sim rho Hinj _ _ _ _ _ Eb HR) as (T1 & Eb' & HR1 & K1).
-  rewrite Eb'. cbn [lift rbind] in H |- *.
-  bstep.
-  match goal with E : exec_block N P n _ _ _ _ = ROk _ |- _ =>
-    destruct (h_exec_block _ IH rho Hinj m _ _ _ _ _ _ _ ltac:(lia) HR1 Hwt E) as (o1 & Ex & Ho) end.
-  rewrite Ex. cbn [rbind].
-  destruct o0 as [s2|v], o1 as [T2|v']; cbn in Ho; try contradiction.
-  - destruct Ho as [HR2 K2].
-    destruct (h_for_loop _ IH rho Hinj m _ _ _ _ _ _ _ _ _ _ ltac:(lia) HR2 Hwt H) as (o2 & Ex2 & Ho2).
-    exists o2. split; [exact Ex2|].
-    destruct o as [s3|v3], o2 as [T3|v3']; cbn in Ho2 |- *; try contradiction; auto.
-    destruct Ho2 as [HR3 K3]. split; auto.
-    eapply keeps_trans_same; [|exact K3]. rewrite map_app. eapply keeps_trans; eauto.
-  - subst v'. inversion H; subst. eexists; split; [reflexivity|]. reflexivity.
-Qed.
-
-Lemma index_walk_step : forall n, SimAt n ->
-  forall rho, inj rho -> forall m s T mu C cur idx v mu', (S n <= m)%nat -> erel rho s T ->
-    index_walk N P (S n) s mu C cur idx v = ROk mu' ->
-    index_walk N P' m T mu C cur (map (ren_expr rho) idx) v = ROk mu'.
-Proof.
-  intros n IH rho Hinj m s T mu C cur idx v mu' Hm HR H.
-  destruct m as [|m]; [lia|].
-  destruct idx as [|i [|j rest]]; simpl in H |- *; [discriminate| |].
-  - steps IH rho Hinj HR. exact H.
-  - steps IH rho Hinj HR.
-    eapply (h_index_walk _ IH rho Hinj m _ _ _ _ _ (j :: rest)) in H; [exact H|lia|exact HR].
-Qed.
-
-Theorem sim_all : forall n, SimAt n.
-Proof.
-  induction n as [|n IH]; [apply sim_O|].
-  constructor.
-  - apply eval_step; assumption.
-  - apply evals_step; assumption.
-  - apply eval_opt_step; assumption.
-  - apply cmp_chain_step; assumption.
-  - apply bool_chain_step; assumption.
-  - apply comp_step; assumption.
-  - apply comp_loop_step; assumption.
-  - apply call_step; assumption.
-  - apply exec_step; assumption.
-  - apply exec_block_step; assumption.
-  - apply for_loop_step; assumption.
-  - apply index_walk_step; assumption.
-Qed.
-
-End Sim.
+End BodiesSim.
